@@ -44,7 +44,6 @@ package bcl
 //@ func execute
 //@   requires program_complete: p != nil && p.linePos != nil
 //@   assert [C03] results_returned_even_with_error: result0 == vm.result && result1 == vm.binding && result3 == err
-//@   modifies nothing
 //
 //@ func Execute
 //@   requires no_nil_option: forall i int :: 0 <= i && i < len(opts) ==> opts[i] != nil
